@@ -103,3 +103,199 @@ func VH_C17_parse_idem() {
 	}
 	vReach("end")
 }
+
+func vhSmallBig(name string, maxBytes int) *big.Int {
+	return new(big.Int).SetBytes(vBytes(name, vChoose(name+"len", maxBytes+1)))
+}
+
+func vhTLVs(n int) []tlv {
+	var out []tlv
+	for i := 0; i < n; i++ {
+		val := vBytes("tlvval", vChoose("tlvlen", 3))
+		out = append(out, tlv{tlvType: vU16("tlvtype"), tlvLength: uint16(len(val)), tlvValue: val})
+	}
+	return out
+}
+
+func vhTLVEq(a, b tlv) bool {
+	return vAll(a.tlvType == b.tlvType, a.tlvLength == b.tlvLength, len(a.tlvValue) == len(b.tlvValue), vBytesEq(a.tlvValue, b.tlvValue))
+}
+
+// H-C17-messages: serialise/parse round trips of the protocol structures.
+//
+// vh: prop=C17 expect=end unwind=80
+func VH_C17_messages() {
+	switch vChoose("kind", 7) {
+	case 0: // tlv
+		t := vhTLVs(1)[0]
+		b := t.serialize()
+		vAssert("tlv-length-field", vAll(len(b) == 4+len(t.tlvValue), int(b[2])<<8|int(b[3]) == len(t.tlvValue)))
+		var got tlv
+		err := got.deserialize(b)
+		vObserve("tlv", b, err == nil)
+		vAssert("tlv-rt", vAll(err == nil, vhTLVEq(got, t)))
+	case 1: // plain data message: text, NUL, TLVs
+		text := vBytes("text", vChoose("textlen", 3))
+		vhNoNUL(text)
+		tl := vhTLVs(vChoose("ntlv", 3))
+		m := plainDataMsg{message: makeCopy(text), tlvs: tl}
+		b := m.serialize()
+		var got plainDataMsg
+		err := got.deserialize(b)
+		vObserve("plain", b, err == nil, len(got.tlvs))
+		vAssert("plain-rt-text", vAll(err == nil, len(got.message) == len(text), vBytesEq(got.message, text)))
+		vAssert("plain-rt-tlv-count", len(got.tlvs) == len(tl))
+		if len(got.tlvs) == len(tl) {
+			for i := range tl {
+				vAssert("plain-rt-tlv", vhTLVEq(got.tlvs[i], tl[i]))
+			}
+		}
+		// padded form parses to the same text and TLVs followed by one padding TLV
+		pb := m.pad().serialize()
+		var got2 plainDataMsg
+		err2 := got2.deserialize(pb)
+		vAssert("padded-rt", vAll(err2 == nil, len(got2.message) == len(text), vBytesEq(got2.message, text), len(got2.tlvs) == len(tl)+1))
+	case 2: // DH commit / DH key
+		g := vBytes("egx", vChoose("egxlen", 4))
+		h := vBytes("hgx", 32)
+		m := dhCommit{encryptedGx: g, yhashedGx: h}
+		b := m.serialize()
+		var got dhCommit
+		err := got.deserialize(b)
+		vObserve("commit", b, err == nil)
+		vAssert("commit-rt", vAll(err == nil, len(got.encryptedGx) == len(g), vBytesEq(got.encryptedGx, g), len(got.yhashedGx) == 32, vBytesEq(got.yhashedGx, h)))
+		k := dhKey{gy: vhSmallBig("gy", 3)}
+		kb := k.serialize()
+		var gotk dhKey
+		errk := gotk.deserialize(kb)
+		vAssert("dhkey-rt", vAll(errk == nil, vBigEq(gotk.gy, k.gy)))
+	case 3: // reveal signature / signature
+		var r [16]byte
+		copy(r[:], vBytes("r", 16))
+		inner := vBytes("esig", vChoose("esiglen", 4))
+		mac := vBytes("mac", 32)
+		v := otrVersion(otrV3{})
+		m := revealSig{r: r, encryptedSig: AppendData(nil, inner), macSig: mac}
+		b := m.serialize(v)
+		var got revealSig
+		err := got.deserialize(b, v)
+		vObserve("reveal", b, err == nil)
+		vAssert("reveal-rt", vAll(err == nil, got.r == r, len(got.encryptedSig) == len(inner), vBytesEq(got.encryptedSig, inner), len(got.macSig) == 20, vBytesEq(got.macSig, mac[:20])))
+		s := sig{encryptedSig: AppendData(nil, inner), macSig: mac}
+		sb := s.serialize(v)
+		var gots sig
+		errs := gots.deserialize(sb)
+		vAssert("sig-rt", vAll(errs == nil, len(gots.encryptedSig) == len(inner), vBytesEq(gots.encryptedSig, inner), vBytesEq(gots.macSig, mac[:20])))
+	case 4: // data message
+		var ctr [8]byte
+		copy(ctr[:], vBytes("ctr", 8))
+		vAssume(!vAll(ctr[0] == 0, ctr[1] == 0, ctr[2] == 0, ctr[3] == 0, ctr[4] == 0, ctr[5] == 0, ctr[6] == 0, ctr[7] == 0))
+		enc := vBytes("enc", vChoose("enclen", 3))
+		auth := vBytes("auth", 20)
+		nk := vChoose("nkeys", 3)
+		var keys []macKey
+		for i := 0; i < nk; i++ {
+			keys = append(keys, macKey(vBytes("oldmac", 20)))
+		}
+		v := otrVersion(otrV3{})
+		m := dataMsg{flag: vU8("flag"), senderKeyID: vU32("sid"), recipientKeyID: vU32("rid"), y: vhSmallBig("y", 3),
+			topHalfCtr: ctr, encryptedMsg: enc, authenticator: auth, oldMACKeys: keys}
+		b := m.serialize(v)
+		var got dataMsg
+		err := got.deserialize(b, v)
+		vObserve("datamsg", b, err == nil)
+		vAssert("data-rt", vAll(err == nil, got.flag == m.flag, got.senderKeyID == m.senderKeyID, got.recipientKeyID == m.recipientKeyID,
+			vBigEq(got.y, m.y), got.topHalfCtr == ctr, len(got.encryptedMsg) == len(enc), vBytesEq(got.encryptedMsg, enc),
+			len(got.authenticator) == 20, vBytesEq(got.authenticator, auth), len(got.oldMACKeys) == nk))
+		if len(got.oldMACKeys) == nk {
+			for i := range keys {
+				vAssert("data-rt-oldmac", vBytesEq(got.oldMACKeys[i], keys[i]))
+			}
+		}
+		// the authenticated part is everything before the MAC
+		vAssert("data-unsigned-prefix", vAll(len(got.serializeUnsignedCache)+20 <= len(b), vBytesEq(got.serializeUnsignedCache, m.serializeUnsigned())))
+	case 5: // SMP messages
+		// one-byte MPIs; only the first two fields may also be zero / empty (the
+		// minimal-form behaviour of MPIs is checked in VH_C17_prims)
+		nfree := 0
+		mk := func(n string) *big.Int {
+			b := vBytes(n, 1)
+			nfree++
+			if nfree > 2 {
+				vAssume(b[0] != 0)
+			}
+			return new(big.Int).SetBytes(b)
+		}
+		switch vChoose("smp", 4) {
+		case 0:
+			q := vBytes("q", vChoose("qlen", 3))
+			vhNoNUL(q)
+			hasQ := vChoose("hasq", 2) == 1
+			m := smp1Message{g2a: mk("a"), c2: mk("b"), d2: mk("c"), g3a: mk("d"), c3: mk("e"), d3: mk("f"), hasQuestion: hasQ}
+			if hasQ {
+				m.question = string(q)
+			}
+			t := m.tlv()
+			vAssert("smp1-tlv-length", int(t.tlvLength) == len(t.tlvValue))
+			gm, ok := t.smpMessage()
+			vAssert("smp1-parses", ok)
+			if ok {
+				g := gm.(smp1Message)
+				vAssert("smp1-rt", vAll(vBigEq(g.g2a, m.g2a), vBigEq(g.c2, m.c2), vBigEq(g.d2, m.d2), vBigEq(g.g3a, m.g3a), vBigEq(g.c3, m.c3), vBigEq(g.d3, m.d3), g.hasQuestion == hasQ, g.question == m.question))
+			}
+		case 1:
+			m := smp2Message{g2b: mk("a"), c2: mk("b"), d2: mk("c"), g3b: mk("d"), c3: mk("e"), d3: mk("f"), pb: mk("g"), qb: mk("h"), cp: mk("i"), d5: mk("j"), d6: mk("k")}
+			t := m.tlv()
+			vAssert("smp2-tlv-length", int(t.tlvLength) == len(t.tlvValue))
+			gm, ok := t.smpMessage()
+			vAssert("smp2-parses", ok)
+			if ok {
+				g := gm.(smp2Message)
+				vAssert("smp2-rt", vAll(vBigEq(g.g2b, m.g2b), vBigEq(g.c2, m.c2), vBigEq(g.d2, m.d2), vBigEq(g.g3b, m.g3b), vBigEq(g.c3, m.c3), vBigEq(g.d3, m.d3), vBigEq(g.pb, m.pb), vBigEq(g.qb, m.qb), vBigEq(g.cp, m.cp), vBigEq(g.d5, m.d5), vBigEq(g.d6, m.d6)))
+			}
+		case 2:
+			m := smp3Message{pa: mk("a"), qa: mk("b"), cp: mk("c"), d5: mk("d"), d6: mk("e"), ra: mk("f"), cr: mk("g"), d7: mk("h")}
+			t := m.tlv()
+			gm, ok := t.smpMessage()
+			vAssert("smp3-parses", vAll(ok, int(t.tlvLength) == len(t.tlvValue)))
+			if ok {
+				g := gm.(smp3Message)
+				vAssert("smp3-rt", vAll(vBigEq(g.pa, m.pa), vBigEq(g.qa, m.qa), vBigEq(g.cp, m.cp), vBigEq(g.d5, m.d5), vBigEq(g.d6, m.d6), vBigEq(g.ra, m.ra), vBigEq(g.cr, m.cr), vBigEq(g.d7, m.d7)))
+			}
+		case 3:
+			m := smp4Message{rb: mk("a"), cr: mk("b"), d7: mk("c")}
+			t := m.tlv()
+			gm, ok := t.smpMessage()
+			vAssert("smp4-parses", vAll(ok, int(t.tlvLength) == len(t.tlvValue)))
+			if ok {
+				g := gm.(smp4Message)
+				vAssert("smp4-rt", vAll(vBigEq(g.rb, m.rb), vBigEq(g.cr, m.cr), vBigEq(g.d7, m.d7)))
+			}
+		}
+	case 6: // DSA keys: wire form and fingerprint input
+		pub := &DSAPublicKey{}
+		pub.P, pub.Q, pub.G, pub.Y = vhSmallBig("p", 2), vhSmallBig("q", 2), vhSmallBig("g", 1), vhSmallBig("y", 2)
+		b := pub.serialize()
+		rest, ok, key := ParsePublicKey(append(makeCopy(b), 0x77))
+		vObserve("pubkey", b, ok)
+		vAssert("pub-parses", vAll(ok, len(rest) == 1))
+		if ok {
+			g := key.(*DSAPublicKey)
+			vAssert("pub-rt", vAll(vBigEq(g.P, pub.P), vBigEq(g.Q, pub.Q), vBigEq(g.G, pub.G), vBigEq(g.Y, pub.Y)))
+			vAssert("pub-reserialize", vBytesEq(g.serialize(), b))
+			vAssert("fingerprint-same", vBytesEq(g.Fingerprint(), pub.Fingerprint()))
+		}
+		priv := &DSAPrivateKey{}
+		priv.DSAPublicKey = *pub
+		priv.PrivateKey.PublicKey = pub.PublicKey
+		priv.X = vhSmallBig("x", 2)
+		pb := priv.Serialize()
+		_, ok2, pk := ParsePrivateKey(pb)
+		vAssert("priv-parses", ok2)
+		if ok2 {
+			g := pk.(*DSAPrivateKey)
+			vAssert("priv-rt", vAll(vBigEq(g.X, priv.X), vBigEq(g.PrivateKey.P, pub.P), vBigEq(g.PrivateKey.Y, pub.Y)))
+		}
+	}
+	vReach("end")
+}
